@@ -141,7 +141,7 @@ class _Break(Exception):
 
 
 UNIT = ()
-OK_PATHS = ("std::result::Result::Ok", "core::result::Result::Ok")
+OK_PATHS = ("std::result::Result::Ok", "core::result::Result::Ok")  # norm() canonicalises prelude paths to the std:: form
 ERR_PATHS = ("std::result::Result::Err", "core::result::Result::Err")
 SOME_PATHS = ("std::option::Option::Some", "core::option::Option::Some")
 NONE_PATHS = ("std::option::Option::None", "core::option::Option::None")
@@ -884,6 +884,14 @@ class Interp:
             return Var(cn, args)
         if cn in self.models:
             return self.models[cn](self, args)
+        if cn.endswith("box_assume_init_into_vec_unsafe") and args:
+            return args[0]
+        if cn.endswith("write_box_via_move") and len(args) == 2:
+            return args[1]
+        if cn.endswith("Box::new_uninit"):
+            return Sym("uninit")
+        if cn in ("std::vec::Vec::new", "alloc::vec::Vec::new", "std::vec::Vec::with_capacity"):
+            return ListV([])
         if cn in ("std::boxed::Box::new", "alloc::boxed::Box::new", "std::convert::From::from", "std::string::String::from", "std::convert::Into::into"):
             return self.as_string(args[0]) if cn.endswith("String::from") else args[0]
         if cn in ("std::string::ToString::to_string",):
@@ -938,6 +946,8 @@ class Interp:
                 d = self.deref(recv)
                 if d is not None:
                     return d
+            if isinstance(recv, ListV) and name in ("iter", "into_iter", "clone", "to_vec", "collect", "cloned"):
+                return ListV(list(recv.items))
             return recv
         if is_unknown(recv):
             return recv
@@ -957,6 +967,25 @@ class Interp:
             return UNIT
         if name == "value" and isinstance(recv, Var) and "value" in recv.fields:
             return recv.fields["value"]
+        if isinstance(recv, ListV):
+            if name == "push" and len(args) == 1:
+                recv.items.append(args[0])
+                return UNIT
+            if name == "extend" and len(args) == 1 and isinstance(args[0], ListV):
+                recv.items.extend(args[0].items)
+                return UNIT
+            if name == "next" and not args:
+                if recv.items:
+                    return Var(SOME_PATHS[0], [recv.items.pop(0)])
+                return Var(NONE_PATHS[0])
+            if name == "pop" and not args:
+                if recv.items:
+                    return Var(SOME_PATHS[0], [recv.items.pop()])
+                return Var(NONE_PATHS[0])
+            if name == "first" and not args:
+                return Var(SOME_PATHS[0], [recv.items[0]]) if recv.items else Var(NONE_PATHS[0])
+            if name == "rev" and not args:
+                return ListV(list(reversed(recv.items)))
         if name == "map" and isinstance(recv, ListV):
             out = []
             for x in recv.items:
@@ -994,6 +1023,13 @@ class Interp:
             return len(recv.items)
         if name == "unwrap" and isinstance(recv, Var) and recv.args and (recv.path in OK_PATHS or recv.path in SOME_PATHS):
             return recv.args[0]
+        if name == "abs" and isinstance(recv, (int, float)) and not isinstance(recv, bool):
+            return abs(recv)
+        if name == "unwrap_or" and isinstance(recv, Var) and len(args) == 1:
+            if recv.path in SOME_PATHS:
+                return recv.args[0]
+            if recv.path in NONE_PATHS:
+                return args[0]
         if name in ("eq", "ne") and len(args) == 1:
             r = recv == args[0]
             return r if name == "eq" else not r
